@@ -45,7 +45,8 @@ def gen_cases(tier, seed):
         fk = rng.choice(FLUSH_KINDS)
         crng = random.Random(rng.randrange(1 << 30))
         cases.append({
-            'pid': PID, 'seed': rng.randrange(1 << 30), 'shape': style, 'n0': rng.choice((2 * limit + 2, 12, 20, 30)),
+            # long enough that the doubling search of a (forced) reorg range never reaches genesis: outside the statements
+            'pid': PID, 'seed': rng.randrange(1 << 30), 'shape': style, 'n0': max(rng.choice((2 * limit + 2, 12, 20, 30)), 4 * limit + 2 if limit >= 8 else 0),
             'colls': rng.choice((0, 1, 2)), 'prefetch': rng.choice((1, 2, 3, 8, 100)), 'reorg_limit': limit,
             'flushkind': fk, 'flushvec': flushvec_of(fk, crng),
             'policy': rng.choice(('random', 'random', 'lazy', 'eager', 'pct')), 'p': rng.choice((0.1, 0.3, 0.6)),
